@@ -29,6 +29,11 @@ def run(tier, seed, rep, replay=None):
                 for wbl, nbl in grid:
                     cases.append({"type": t, "rw": rw, "wbl": wbl, "nbl": nbl, "nwb": rng.choice([1, 2, 3]),
                                   "nnb": rng.choice([1, 2]), "seed": rng.randrange(1000)})
+        # many bursts of a length that does not divide the memory size: a per-burst stride or wrap-around shows only once
+        # count x length crosses MEM_SIZE
+        for t in types:
+            cases.append({"type": t, "rw": rng.choice(["read", "write"]), "wbl": 3, "nbl": 1, "nwb": 400, "nnb": 2,
+                          "seed": rng.randrange(1000)})
     res = common.run_worker("worker_jobs", cases, shards=8)
     nx, ny, mem = mod.NUM_X, mod.NUM_Y, mod.MEM_SIZE
     # (n) the addresses the generator uses for tile (x,y) and memory channel c start the rules the real address maps
